@@ -310,9 +310,8 @@ def r2_no_save_after_backup(ck, fns):
 
 
 # ---- R4 ---------------------------------------------------------------------------------------------------
-def r4(ck, par):
+def r4(ck, par, rule="C05-R4"):
     prog, cg = ck.prog, ck.cg
-    rule = "C05-R4"
     writers = cg.functions_with_effect(callgraph.fs_write_kind)
     launches = [s for s in cg.out[par.id] if s.kind == "value" and s.term is not None and s.callee in writers
                 and s.callee.startswith(par.id + "::{closure")]
